@@ -25,7 +25,7 @@ func init() {
 		Explanation: "PATH rules over listener.receiveRetry / listener.Listen / Advertiser.handle / Monitor.handle: " +
 			"R-C09-1 every returned message is gated by hop limit == 255; R-C09-2 an invalid message is counted once and dropped; " +
 			"R-C09-3 loop-carried delta of the retry counter is 0 on every back edge through the invalid-message branch (only timeouts consume the budget); " +
-			"R-C09-4 other message types are counted invalid once and ignored (no RA build, verify or hook); R-C09-5 an ignored message cannot end the receive loop R-C09-5 every success path of dialNDP enables hop-limit delivery (SetControlMessage(FlagHopLimit, true)) and installs an ICMPv6 filter that passes only types 133 and 134; R-C09-6 no module code allocates an ipv6.ControlMessage, writes its HopLimit, or implements Conn.ReadFrom (the hop limit reaches the listener as the kernel reported it).",
+			"R-C09-4 other message types are counted invalid once and ignored (no RA build, verify or hook); R-C09-5 an ignored message cannot end the receive loop R-C09-5 every success path of dialNDP enables hop-limit delivery (SetControlMessage(FlagHopLimit, true)) and installs an ICMPv6 filter that passes only types 133 and 134; R-C09-6 no module code allocates an ipv6.ControlMessage, writes its HopLimit, or implements Conn.ReadFrom (the hop limit reaches the listener as the kernel reported it); R-C09-7 nothing on the receive path indexes an array or slice with the received message's type.",
 		Assumptions: []string{
 			"Go type checker and go/ssa construction are correct",
 			"path enumeration cuts loop back edges: each loop body is analysed for an arbitrary iteration (loop phis are symbols)",
@@ -73,6 +73,7 @@ func runC09(c *Ctx) {
 	c09Handle(c)
 	c09Listen(c)
 	c09HopLimitUnaltered(c)
+	c09NoMessageIndexing(c)
 	if c.P.Cfg.GOOS == "linux" || c.P.Func("internal/system", "dialNDP") != nil {
 		c09Socket(c)
 	}
@@ -560,4 +561,54 @@ func c09HopLimitUnaltered(c *Ctx) {
 	}
 	c.R.Check(bad == "" && n > 0, "R-C09-6", "module:hop-limit-unaltered", "", "", fmt.Sprintf("%d function(s) scanned; %s", n, bad),
 		"received control messages come from the kernel only: no module code allocates an ipv6.ControlMessage, writes its HopLimit or wraps Conn.ReadFrom", "a message whose real hop limit is not 255 is presented to the listener as valid")
+}
+
+
+// c09NoMessageIndexing (R-C09-7): nothing on the receive path indexes an array
+// or slice with a value taken from the received message (its type, a length
+// byte, …) without a bounds test: an index out of range is a panic in the
+// listener goroutine, i.e. one NS or NA stops the daemon. (A `[...]bool{133:
+// true, 134: true}` table has 135 elements; type 135 is a neighbor
+// solicitation.)
+func c09NoMessageIndexing(c *Ctx) {
+	roots := []*ssa.Function{c.P.Method("internal/corerad", "Advertiser", "handle"), c.P.Method("internal/corerad", "Monitor", "handle"), c.P.Method("internal/corerad", "listener", "receiveRetry"), c.P.Method("internal/corerad", "listener", "Listen")}
+	var rs []*ssa.Function
+	for _, r := range roots {
+		if r != nil {
+			rs = append(rs, r)
+		}
+	}
+	reach := an.ModuleReach(rs, func(f *ssa.Function) bool {
+		return load.InModule(f) && f.Pkg != nil && strings.HasSuffix(f.Pkg.Pkg.Path(), "internal/corerad")
+	}, nil)
+	n, bad := 0, ""
+	fromMessage := func(e *an.Expr) bool {
+		return e.Contains(func(x *an.Expr) bool {
+			return x.Op == an.OpCall && x.Fn == nil && x.Name == "Type" // ndp.Message.Type()
+		})
+	}
+	for fn := range reach {
+		for _, b := range fn.Blocks {
+			for _, in := range b.Instrs {
+				var idx ssa.Value
+				switch x := in.(type) {
+				case *ssa.IndexAddr:
+					idx = x.Index
+				case *ssa.Index:
+					idx = x.Index
+				default:
+					continue
+				}
+				n++
+				if _, isConst := idx.(*ssa.Const); isConst {
+					continue
+				}
+				if e := c.XO.Of(idx); fromMessage(e) {
+					bad = fmt.Sprintf("%s indexes with %s at %s", c.fname(fn), shortExpr(e), c.pos(instrPos(in)))
+				}
+			}
+		}
+	}
+	c.R.Check(bad == "", "R-C09-7", "corerad:no-message-derived-index", "", "", fmt.Sprintf("%d index operation(s) on the receive path; %s", n, bad),
+		"no array or slice is indexed with a value derived from the received message's type", "a message of an unexpected type makes the index run out of range: the listener goroutine panics and the daemon stops")
 }
